@@ -285,7 +285,7 @@ func runC11(c *Ctx) error {
 				if prod != nil {
 					// let this delivery reach the first production webhook before the next header is submitted: its connection
 					// goes back to the client's idle pool and the next delivery REUSES it (keep-alive), as in steady operation
-					waitFor(func() bool { return len(prod.posts("/first")) >= len(expected) }, 150*time.Millisecond)
+					waitFor(func() bool { return len(prod.posts(prodFirst)) >= len(expected) }, 150*time.Millisecond)
 					time.Sleep(2 * time.Millisecond)
 				}
 			} else {
